@@ -515,6 +515,20 @@ func ruleReuseValidatesTail(c *Ctx, r *Reporter) {
 	}
 	okRead := true
 	nEOF := 0
+	// an explicit io.EOF may only be answered where readRecord itself answered io.EOF (not for a record cut short)
+	wasEOF := func(cond ssa.Value) (bool, bool) {
+		bo, ok := cond.(*ssa.BinOp)
+		if ok && (bo.Op == token.EQL || bo.Op == token.NEQ) {
+			for _, o := range []ssa.Value{bo.X, bo.Y} {
+				if g := globalLoad(o); g != nil && g.Name() == "EOF" && g.Pkg != nil && g.Pkg.Pkg.Path() == "io" {
+					return bo.Op == token.EQL, bo.Op == token.NEQ
+				}
+			}
+		}
+		return false, false
+	}
+	okConv := true
+	var convPos ssa.Instruction
 	for _, ret := range Returns(read) {
 		v := resolveLoad(stripConv(ReturnValue(ret, 1)))
 		if g := globalLoad(v); g != nil && g.Name() == "EOF" {
@@ -522,8 +536,17 @@ func ruleReuseValidatesTail(c *Ctx, r *Reporter) {
 			if !GuardedBy(ret.Block(), noPending) {
 				okRead = false
 			}
+			if !GuardedBy(ret.Block(), wasEOF) {
+				okConv = false
+				convPos = ret
+			}
 		}
 	}
+	cp := c.FnPos(read)
+	if convPos != nil {
+		cp = c.InsPos(convPos)
+	}
+	r.Check(okConv, "wal.Reader.ReadEntry:eof-not-converted", cp, "an explicit io.EOF is answered only behind err == io.EOF", "ReadEntry answers a clean io.EOF on a path that is not behind err == io.EOF (e.g. for io.ErrUnexpectedEOF): a record cut short looks like a clean end, the tail check lets the file be reused, and records appended behind the torn bytes are lost at the next recovery")
 	r.Check(okRead && nEOF > 0, "wal.Reader.ReadEntry:eof", c.FnPos(read), "io.EOF is reported only when no fragments are pending", "ReadEntry can report a clean io.EOF while fragments of an unfinished entry are pending")
 }
 
